@@ -18,7 +18,8 @@ DYADS = [-2.0, -1.0, -0.5, 0.0, 0.25, 1.0, 3.0, 0.125]
 
 
 def gen_spec(rng, variant, tier):
-    n_endo = rng.choice([1, 1, 2, 2, 3])
+    deep = tier == 'thorough'
+    n_endo = rng.choice([1, 1, 2, 2, 3] + ([4, 5] if deep else []))
     n_exo = rng.choice([0, 1, 1, 2])
     endo = [f'Y{i}' for i in range(n_endo)]
     exo = [f'X{i}' for i in range(n_exo)]
@@ -35,7 +36,7 @@ def gen_spec(rng, variant, tier):
         check = list(reversed(endo))
     lags = rng.choice([0, 0, 0, 1, 2])
     leads = rng.choice([0, 0, 0, 1, 2])
-    n = lags + leads + rng.randint(1, 6)
+    n = lags + leads + rng.randint(1, 8 if deep else 6)
     sp = {'type': rng.choice(spans.TYPES), 'n': n, 'origin': rng.choice([0, 1, 3, 7])}
     init = {nm: [rng.choice(DYADS) for _ in range(n)] for nm in endo + exo}
     spec = {'kind': 'scripted', 'endo': endo, 'exo': exo, 'check': check, 'lags': lags, 'leads': leads, 'span': sp, 'init': init}
@@ -45,8 +46,8 @@ def gen_spec(rng, variant, tier):
     return spec
 
 
-def gen_opts(rng, faults):
-    max_iter = rng.choice([0, 1, 1, 2, 2, 3, 3, 4, 5, 6])
+def gen_opts(rng, faults, deep=False):
+    max_iter = rng.choice([0, 1, 1, 2, 2, 3, 3, 4, 5, 6] + ([8, 10, 12] if deep else []))
     r = rng.random()
     if r < 0.05:
         min_iter = max_iter + 1
@@ -157,7 +158,7 @@ def gen_plan(rng, opts, spec, faults, idx):
 def gen_solve_op(rng, spec, variant, idx, tier):
     faults = variant != 'solver'
     n, lags, leads = spec['span']['n'], spec['lags'], spec['leads']
-    opts = gen_opts(rng, faults)
+    opts = gen_opts(rng, faults, tier == 'thorough')
     tn = rng.randint(lags, n - 1 - leads)
     t = tn - n if rng.random() < 0.35 else tn
     r = rng.random()
